@@ -117,7 +117,7 @@ def run(run_, ctx):
         ("S1", "de_reader", None, "reader source"),
         ("S1", "de_sliding", None, "scratch buffer"),
     ])
-    run_.floor("P1", 17)
+    run_.floor("P1", 16)
     run_.floor("S1", 40)
     run_.explanation = (
         "Per data-model kind the serializer-side table cell (C02) and the deserializer-side cell (C03) are evaluated on all MIR paths and "
